@@ -236,6 +236,9 @@ find_ = z3.Function("find", ISq, ISq, I, I)        # s.find(sub, start)
 occ = z3.Function("occ", ISq, ISq, I, B)            # t occurs in s at offset o
 
 
+REVEALABLE = {}
+
+
 def lib_axioms():
     s, t, k = z3.Consts("s_l t_l k_l", ISq)
     i, n, v, w = z3.Ints("i_l n_l v_l w_l")
@@ -309,10 +312,13 @@ def lib_axioms():
                 patterns=[at(aes_dec(k, s, t), i)]))
     # occ(s, t, o): t occurs in s at offset o (element-wise definition, no slices in triggers)
     o = z3.Int("o_l")
-    A.append(FA([s, t, o], occ(s, t, o) == z3.And(0 <= o, o + ln(t) <= ln(s),
-                                                  FA([i], z3.Implies(z3.And(0 <= i, i < ln(t)), at(s, o + i) == at(t, i)),
-                                                     patterns=[at(t, i)])),
-                patterns=[occ(s, t, o)]))
+    # definition of occ: OPAQUE by default (only its consequences below are global); a contract/lemma that needs the
+    # element-wise definition says reveal("occ")
+    REVEALABLE["occ"] = [FA([s, t, o], occ(s, t, o) == z3.And(0 <= o, o + ln(t) <= ln(s),
+                                                              FA([i], z3.Implies(z3.And(0 <= i, i < ln(t)), at(s, o + i) == at(t, i)),
+                                                                 patterns=[at(t, i)])),
+                            patterns=[occ(s, t, o)])]
+    A.append(FA([s, t, o], z3.Implies(occ(s, t, o), z3.And(0 <= o, o + ln(t) <= ln(s))), patterns=[occ(s, t, o)]))
     # bytes.find(sub, start): least occurrence >= start, -1 if none (sub non-empty, 0 <= start)
     r = find_(s, t, n)
     A.append(FA([s, t, n], z3.Implies(z3.And(ln(t) >= 1, n >= 0), z3.Or(r == -1, z3.And(r >= n, occ(s, t, r)))),
